@@ -51,10 +51,12 @@ def gen_cases(tier, seed):
 
 def make_history(rng, compress):
     from vlib.srv import MG
-    start, dt = rng.choice([("1", "1"), ("0", "0.5"), ("2.5", "0.25"), ("1", "0.5"), ("8", "1"), ("9", "0.5"), ("98", "1")])
+    start, dt = rng.choice([("1", "1"), ("0", "0.5"), ("2.5", "0.25"), ("1", "0.5"), ("8", "1"), ("9", "0.5"), ("98", "1"), ("0", "0.1"), ("0", "0.2"), ("0.3", "0.1")])
     if compress:
         start, dt = "1", "1"
     n = rng.randint(3, 8)
+    if dt in ("0.1", "0.2"):
+        n = rng.randint(10, 14)        # (decimal dt: rounding noise in a time that is walked step by step needs some steps to build up)
     reqs = []
     SC = "base" if compress else rng.choice(["base", "base", "fine"])
     begin = None
